@@ -111,6 +111,37 @@ def prop_c19rt(cname, d):
             return f"FAIL private key {form}: {type(e).__name__} at {where(e)}"
         if back.privkey.secret_multiplier != d or back.verifying_key != vk or back.curve != curve:
             return f"FAIL private key changed by {form}"
+    # PEM is nothing but the DER of the SAME form in base64 armour (64 characters per line), written out independently here:
+    # the point encoding, the private-key format and the parameter encoding asked for must reach the DER inside
+    import base64
+
+    def armour(derb, label):
+        b64 = base64.b64encode(derb)
+        return (f"-----BEGIN {label}-----\n".encode() + b"".join(b64[i:i + 64] + b"\n" for i in range(0, len(b64), 64))
+                + f"-----END {label}-----\n".encode())
+    for form in PUB_FORMS:
+        if form[0] == "pem":
+            got = enc_pub(vk, form)
+            want = armour(enc_pub(vk, ("der",) + tuple(form[1:])), "PUBLIC KEY")
+            if (got if isinstance(got, bytes) else got.encode()) != want:
+                return f"FAIL public key PEM {form[1:]} is not the base64 armour of the DER encoding of the same form"
+    for form in PRIV_FORMS:
+        if form[0] == "pem":
+            got = enc_priv(sk, form)
+            label = "EC PRIVATE KEY" if form[1] == "ssleay" else "PRIVATE KEY"
+            want = armour(enc_priv(sk, ("der",) + tuple(form[1:])), label)
+            if (got if isinstance(got, bytes) else got.encode()) != want:
+                return f"FAIL private key PEM {form[1:]} is not the base64 armour of the DER encoding of the same form"
+    # the DER forms themselves: the point inside has the encoding that was asked for
+    for pe in ("uncompressed", "compressed", "hybrid"):
+        inner = vk.to_string(pe)
+        for ce in ("named_curve", "explicit"):
+            try:
+                db = vk.to_der(pe, ce)
+            except Exception as e:
+                return f"FAIL to_der({pe}, {ce}) raises {type(e).__name__}"
+            if not db.endswith(inner) or db[-len(inner) - 1] != 0:
+                return f"FAIL to_der({pe}, {ce}) does not end with the {pe} point string as BIT STRING content"
     # the same long-lived objects, forms in a random order with repeats, a precomputation and decoded copies in between:
     # every encoding equals that of a fresh object for the same key (no memory of earlier calls)
     import random
